@@ -51,10 +51,6 @@ Proof. unfold g_offline_signature_validateTransientKeyType. rewrite tie_off_spk_
 Theorem tie_off_dest_sig_type t :
   g_offline_signature_validateDestinationSignatureType t = (if off_sig_size t =? 0 then None else Some (off_sig_size t)).
 Proof. unfold g_offline_signature_validateDestinationSignatureType. rewrite tie_off_sig_size. reflexivity. Qed.
-Theorem tie_off_key_data n k : g_offline_signature_validateTransientKeyData n k = negb (n <? k).
-Proof. unfold g_offline_signature_validateTransientKeyData. tie_cases. Qed.
-Theorem tie_off_sig_data n k : g_offline_signature_validateSignatureData n k = negb (n <? k).
-Proof. unfold g_offline_signature_validateSignatureData. tie_cases. Qed.
 
 (* ---- MetaLeaseSet ---- *)
 Theorem tie_meta_min_size n : g_meta_leaseset_validateMinSize n = negb (n <? c_meta_leaseset_META_LEASESET_MIN_SIZE).
